@@ -70,7 +70,39 @@ U = Universe("c14", [
 ])
 # "survived-rejected-replace": every node of the tree has been the receiver of a replace() that its model rejected late (the
 # new node already existed); the world must be indistinguishable from "registered"
-SETUPS = [(reg, twin) for reg in ("registered", "detached", "survived-rejected-replace") for twin in ("none", "twin-before", "twin-after")]
+# "loaded": the tree under test was read from a document (written while a twin held the plain ids, so the document carries
+# suffixed ids; nothing of the original is alive at load time)
+SETUPS = [(reg, twin) for reg in ("registered", "detached", "survived-rejected-replace", "loaded") for twin in ("none", "twin-before", "twin-after")]
+
+
+def reload_from_document(make, twin):
+    """Build (optionally next to a twin), serialize, drop everything, load.  Returns (root, index)."""
+    keep = [make({})] if twin == "twin-before" else []
+    idx = {}
+    root = make(idx)
+    if twin == "twin-after":
+        keep.append(make({}))
+    doc = root.as_dict()
+    paths = list(idx)
+    del root, idx, keep
+    NODE_REGISTRY.clear()
+    back = ASTNode.as_obj(doc)
+    index = {}
+
+    def walk_(n, path):
+        index[path] = n
+        if isinstance(n, DP):
+            if n.one is not None:
+                walk_(n.one, path + (("one", None),))
+            for i, x in enumerate(n.items):
+                walk_(x, path + (("items", i),))
+
+    walk_(back, ())
+    return back, index
+
+
+def registry_keys_consistent():
+    return all(obj.id == key for key, obj in list(NODE_REGISTRY.items()))
 
 
 def reject_everywhere(root):
@@ -274,12 +306,15 @@ def check_world(rec, d, share, okind, setup, builder=None):
             return r
         return U.build(d, origin=origins_for(okind), index=idx, share=share)
 
-    if twin == "twin-before":
-        keep.append(make({}))
-    index = {}
-    root = make(index)
-    if twin == "twin-after":
-        keep.append(make({}))
+    if reg == "loaded":
+        root, index = reload_from_document(make, twin)
+    else:
+        if twin == "twin-before":
+            keep.append(make({}))
+        index = {}
+        root = make(index)
+        if twin == "twin-after":
+            keep.append(make({}))
     if reg == "detached":
         root.detach()
     was_registered = [registered_as_itself(n) for n in walk(root)] if reg == "survived-rejected-replace" else None
@@ -298,6 +333,8 @@ def check_world(rec, d, share, okind, setup, builder=None):
     def bad(kind, msg, **kw):
         rec.violation(f"C14|{kind}", dict(case, **kw), msg)
 
+    if not registry_keys_consistent():
+        bad("registry|key-mismatch", "the registry holds a node under a key that is not its id (set-up: " + reg + ")")
     if was_registered is not None and [registered_as_itself(n) for n in walk(root)] != was_registered:
         bad("rejected-replace|registry", "a replace() rejected by the node's model changed which nodes are registered (the ids later operations hand out depend on it)")
     # ---- duplicate -------------------------------------------------------------------------------------
@@ -349,12 +386,15 @@ def check_world(rec, d, share, okind, setup, builder=None):
                 # every operation starts from a freshly built world: replace changes the registry
                 NODE_REGISTRY.clear()
                 keep2 = []
-                if twin == "twin-before":
-                    keep2.append(make({}))
-                idx2 = {}
-                root2 = make(idx2)
-                if twin == "twin-after":
-                    keep2.append(make({}))
+                if reg == "loaded":
+                    root2, idx2 = reload_from_document(make, twin)
+                else:
+                    if twin == "twin-before":
+                        keep2.append(make({}))
+                    idx2 = {}
+                    root2 = make(idx2)
+                    if twin == "twin-after":
+                        keep2.append(make({}))
                 if reg == "detached":
                     root2.detach()
                 if reg == "survived-rejected-replace":
